@@ -4,6 +4,7 @@ import (
 	"fmt"
 	"math/rand"
 	"regexp"
+	"strings"
 	"time"
 )
 
@@ -265,6 +266,7 @@ func checkC03(c *Ctx) {
 	for done := 0; done < total; done += bs {
 		var gs []*SynGrammar
 		if done == 0 {
+			gs = append(gs, curatedActionSyn()...)
 			for _, g := range curatedSyn() {
 				for i := range g.Prods {
 					if i%3 != 2 {
@@ -274,10 +276,30 @@ func checkC03(c *Ctx) {
 				gs = append(gs, g)
 			}
 		}
+		if done == 0 {
+			// a failing action must stop the parse also where error recovery is available
+			for _, g := range curatedErrSyn() {
+				for i := range g.Prods {
+					g.Prods[i].Action = "log"
+				}
+				gs = append(gs, g)
+			}
+		}
 		for i := 0; i < min(bs, total-done); i++ {
-			gs = append(gs, genSynGrammar(rng, o))
+			oo := o
+			oo.ErrorAlts = i%4 == 3
+			gs = append(gs, genSynGrammar(rng, oo))
 		}
 		b := c.buildSynBatch(fmt.Sprintf("c03_%d", done), gs, [][]string{nil})
+		// the action expressions of these grammars are valid Go within the $-vocabulary: generated
+		// code that does not compile means some $i / $Ti / $Context was not rewritten as specified
+		for _, cs := range b.Cases {
+			if cs.Run.Code == 0 && !cs.Run.TimedOut && !cs.Built && c.firstFor(cs.Text) {
+				o, _ := b.M.BuildPkgs("./" + cs.Sub + "/parser")
+				c.Violation(Replay{Kind: "gocc-complete", What: "the action expressions of the grammar below ($i, $Ti, $Context only) were not rewritten into valid code: the generated parser does not compile\n" + indent(tail(o, 6)) + "\n" + indent(cs.Text),
+					Data: map[string]any{"text": strings.ReplaceAll(cs.Text, "@@PKG@@", "scratch/g000"), "flags": []string{}, "zero": true, "written": nil}})
+			}
+		}
 		var cases []*SynCase
 		for _, cs := range b.built() {
 			if cs.Reported != -1 || cs.pairingProblem() != "" {
@@ -292,7 +314,7 @@ func checkC03(c *Ctx) {
 		// first pass: plain runs, to learn how many calls each sentence makes
 		var hs []*synHistory
 		for i, cs := range cases {
-			for _, in := range synInputs(rng, cs.G, 3, c.pick(10, 40), c.pick(8, 30), false) {
+			for _, in := range synInputs(rng, cs.G, 3, c.pick(10, 40), c.pick(8, 30), cs.G.errTerm() >= 0) {
 				hs = append(hs, &synHistory{Case: cs, CaseIx: i, Inputs: []synInput{{Toks: in}}})
 			}
 		}
